@@ -936,6 +936,20 @@ func (a *Analysis) ruleRefuse() {
 		if !closed {
 			continue
 		}
+		if op.ViaRoot {
+			// the root scope is disposed in the course of the provider's Close, not at its start: a
+			// Close call that lost the race returns at once while the winner is still at work, and
+			// until the winner is through the root scope answers normally (the overlap case)
+			busy := false
+			for _, c := range a.ops {
+				if (c.Op.Kind == OpClose || c.Op.Kind == OpFinish) && c.Handle == 0 && c.StartSeq < op.StartSeq && !(c.Done && c.EndSeq < op.StartSeq) {
+					busy = true
+				}
+			}
+			if busy {
+				continue
+			}
+		}
 		want := EScopeDisposed
 		if op.Handle == 0 {
 			want = EProviderDisposed
@@ -949,6 +963,10 @@ func (a *Analysis) ruleRefuse() {
 		}
 		if op.Panic != nil {
 			a.add("C13", "C13.refuse", shape+"/panic", "op%d %s on h%d after Close of h%d returned: panicked with %v", op.GID, op.Op, op.Handle, by, op.Panic)
+			continue
+		}
+		if op.ViaRoot && hasClass(op.Classes, EScopeDisposed) {
+			// issued on the provider's root scope, which is a scope: the scope-disposed error is as good
 			continue
 		}
 		if !hasClass(op.Classes, want) {
@@ -1353,6 +1371,11 @@ func (a *Analysis) ruleOrder() {
 			continue
 		}
 		ow := a.ownerOf(in)
+		if ow.Kind == OwFailedBuild && r.Life != LSingleton {
+			// the partial provider of a failed Build has two lists like any other: its root scope's
+			// (transients pulled in by singletons, closed first) and the singletons'
+			ow.ID = 1
+		}
 		byOwner[ow] = append(byOwner[ow], item{in, inv.ExitSeq, in.closeSeq[0]})
 	}
 	exact := a.singleClient()
